@@ -58,10 +58,11 @@ def part_inbreeding_probability(parts, Fx):
     for part in parts:
         if sum(part) != 0 and sum(part) != 2*len(part):
             p = (2 * part.count(2) + part.count(1))/(2*len(part))
-            alpha = p*((1.0-Fx)/Fx)
-            beta  = (1.0-p)*((1.0-Fx)/Fx)
-            
-            p00, p01, p11 = numpy.exp([dadi.Numerics.BetaBinomln(_,2,alpha,beta) for _ in range(2+1)])
+            # Genotype probabilities are beta-binomial(2, alpha, beta) with alpha = p*(1-Fx)/Fx and
+            # beta = (1-p)*(1-Fx)/Fx. In closed form that is Hardy-Weinberg with inbreeding, which stays
+            # accurate as Fx -> 0 (differences of betaln of huge arguments lose all precision there).
+            q = 1.0 - p
+            p00, p01, p11 = q*q + p*q*Fx, 2*p*q*(1.0-Fx), p*p + p*q*Fx
             n, n00, n01, n11 = len(part), part.count(0), part.count(1), part.count(2)
             
             part_prob = numpy.append(part_prob, (factorial(n) / (factorial(n00) * factorial(n01) * factorial(n11))) * (p00 ** n00) * (p01 ** n01) * (p11 ** n11))
